@@ -17,7 +17,7 @@ INFO = {
     "strategies are off and terminals do not overlap lexically: the reference finds at most one derivation for "
     "every explored w, Parser accepts iff the reference does, and the GLR forest has exactly one tree equal to Parser's.",
     "bounds": {
-        "quick": {"N": 4, "grammars": "GF-shapes + stratified GF-tiny(3) x 8 option vectors (those that construct)"},
+        "quick": {"N": 4, "grammars": "GF-shapes + stratified GF-tiny(3) x 8 option vectors (those that construct) + 40 of 300 fixed random 3-nonterminal grammars x {LALR, SLR}, strategies off"},
         "thorough": {"N": "5 for shapes, 4 for all GF-tiny(3)"},
     },
     "outside": "inputs longer than N, grammars outside the families, grammars with priorities/associativities",
@@ -40,7 +40,7 @@ QUICK_SHAPES = [
     "leftrec", "rightrec", "midrec", "ambig-binop", "ambig-concat-null", "hidden-left", "nullable-chain",
     "nullable-start", "two-nullables", "lr2", "lr1-not-lalr", "dangling-else", "lex-a-aa", "lex-prefix", "expr",
     "paren", "opt-list", "unit-chain", "rr-conflict", "palindrome", "g7", "right-nullable", "reduce-many-empty",
-    "hidden-left-2",
+    "hidden-left-2", "item-then-list", "bottom-up-order", "first-empty-2",
 ]
 
 
@@ -53,6 +53,12 @@ def cases(tier, seed):
         for g in gs:
             for ps, pse, tb in vecs:
                 out.append(_case(g, tb, ps, pse, N))
+        r3 = corpus.random3_fixed()
+        import random as _r
+
+        for g in _r.Random(seed).sample(r3, 40):
+            for tb in ("LALR", "SLR"):
+                out.append(_case(g, tb, False, False, N))
     else:
         vecs = [(ps, pse, tb) for ps in (False, True) for pse in (False, True) for tb in ("LALR", "SLR")]
         for g in corpus.shapes():
@@ -61,6 +67,9 @@ def cases(tier, seed):
         for g in corpus.gf_tiny(3):
             for ps, pse, tb in [(False, False, "LALR"), (True, True, "LALR"), (False, False, "SLR")]:
                 out.append(_case(g, tb, ps, pse, 4))
+        for g in corpus.random3_fixed():
+            for tb in ("LALR", "SLR"):
+                out.append(_case(g, tb, False, False, 4))
     tw = _case(corpus.shape("leftrec"), "LALR", False, False, 3)
     tw["name"] = "twin:" + tw["name"]
     tw["params"]["twin"] = "ba"
